@@ -8,11 +8,14 @@ ID = "C05"
 LEAN_MODULES = ["Econf.Props.C05"]
 THEOREMS = ["Econf.C05_step_inert", "Econf.C05_blank_inert", "Econf.C05_lines_inert", "Econf.C05_insert_comments"]
 RULE = ("conventional single-line-value documents x random insertion points x comment-line texts over the printable alphabet with "
-        "comment characters, delimiters, quotes and brackets over-represented, with and without indentation, all comment sets; the file "
+        "comment characters, delimiters, quotes and brackets over-represented, with and without indentation, the comment sets {#, ;, #;, default} and longer ones (4, 9, 11 characters with the usual ones last; a character named twice); the file "
         "is read with and without the inserted lines and the two results are compared (in a third of the scenarios after an earlier read with other comment characters in the same process); distinct by (document, inserted lines)")
 
 NASTY = [b"old=1 # disabled", b"# heading", b" c", b"[section]", b"[broken", b"key value", b"k=v", b'"quoted', b"=", b"]", b"a=b # c ; d",
          b"", b" ", b"\t[x] y", b"#", b";", b"#;#;", b'k="v" # t']
+
+
+LONG_SETS = [b"#;!%", b"!%/*|~^;#", b"!%/*|~^&@;#", b"##", b";#;"]
 
 
 def comment_text(rng, g):
@@ -25,7 +28,8 @@ def comment_text(rng, g):
 
 def make(rng, sid):
     delim = rng.choice(docs.DELIMS)
-    comment = rng.choice(docs.COMMENTS)
+    # besides the usual one- and two-character sets: long sets (the usual characters last), sets naming a character twice
+    comment = rng.choice(docs.COMMENTS + docs.COMMENTS + LONG_SETS)
     g = gen_doc.Gen(rng, delim, comment, single_line=True)
     items = g.document(rng.choice([2, 6, 12, 25]))
     # inserted comment lines
